@@ -34,6 +34,7 @@ type ParserT struct {
 	endCol        int
 	expression    []rune
 	subExp        bool
+	subExpClosed  bool // the sub-expression consumed its closing ')'
 	p             *lang.Process
 	ignoreLf      bool
 	_strictTypes  any
